@@ -269,6 +269,104 @@ Fixpoint units_needed (k : nat) (dec : list bytes) : nat * nat :=
 Definition oneof_mem (obj : val) (vs : list val) : res bool :=
   if hashable obj then Ok (existsb (fun v => val_eqb obj v) vs) else type_error.
 
+(* ---- lazy parsing: offset table, cache, deferred parse (the recursive calls are parameters) ---- *)
+
+Definition sizer := ctx -> path -> istream -> res Z.
+
+(* _actualsize: sizeof, except that Prefixed measures itself by reading its length field *)
+Definition actualsize_with (P : con -> parser) (c : con) : sizer := fun cx p s =>
+  match c with
+  | CPrefixed lc c' incl =>
+      let* (lv, s1) := P lc cx p s in
+      let* n := vint_of lv in
+      let* n := (if incl then let* k := sizeof lc cx p in Ok (n - k)%Z else Ok n) in
+      Ok ((itell s1 - itell s) + n)%Z
+  | _ => sizeof c cx p
+  end.
+
+(* one member of LazyStruct._parse / LazyArray._parse: skip it when its size can be measured, parse it otherwise.
+   state: index, offset, context, stream, offsets so far, cache so far *)
+Definition lazy_state := (nat * Z * ctx * istream * list Z * list (nat * val))%type.
+
+Definition lazy_step (Pc : parser) (Ac : sizer) (nm : option name) (p : path) (st : lazy_state) : res lazy_state :=
+  let '(i, off, cx, s, offs, cache) := st in
+  match Ac cx p s with
+  | Ok n =>
+      let off' := (off + n)%Z in
+      let* (_, s1) := iseek s off' 0 p in
+      Ok (S i, off', cx, s1, offs ++ [off'], cache)
+  | Err ESizeof _ =>
+      let* (_, s0) := iseek s off 0 p in
+      let* (v, s1) := Pc cx p s0 in
+      let cx' := match nm with Some n => ctx_set cx n v | None => cx end in
+      let off' := itell s1 in
+      Ok (S i, off', cx', s1, offs ++ [off'], cache ++ [(i, v)])
+  | Err e q => Err e q
+  end.
+
+Definition lazy_scan_struct (P : con -> parser) :=
+  fix go (cs : list con) (p : path) (st : lazy_state) : res lazy_state :=
+    match cs with
+    | [] => Ok st
+    | c :: t => let* st' := lazy_step (P c) (actualsize_with P c) (name_of c) p st in go t p st'
+    end.
+
+Fixpoint lazy_scan_array (Pc : parser) (Ac : sizer) (n : nat) (p : path) (st : lazy_state) : res lazy_state :=
+  match n with
+  | O => Ok st
+  | S n' => let* st' := lazy_step Pc Ac None p st in lazy_scan_array Pc Ac n' p st'
+  end.
+
+Fixpoint cache_get (i : nat) (cache : list (nat * val)) : option val :=
+  match cache with
+  | [] => None
+  | (j, v) :: t => if Nat.eqb i j then Some v else cache_get i t
+  end.
+
+(* the deferred parse of member i: at its recorded offset, with the captured context; the position is restored *)
+Definition lazy_force (Pc : parser) (off : Z) (cx : ctx) (p : path) (s : istream) : res (val * istream) :=
+  let fallback := itell s in
+  let* (_, s1) := iseek s off 0 p in
+  let* (v, s2) := Pc cx p s1 in
+  let* (_, s3) := iseek s2 fallback 0 p in
+  Ok (v, s3).
+
+(* forcing every named member once, in declaration order (what converting a lazy result to a plain value does) *)
+Definition force_struct (P : con -> parser) :=
+  fix go (cs : list con) (i : nat) (offs : list Z) (cache : list (nat * val)) (cx : ctx) (p : path) (s : istream)
+    : res (list (name * val)) :=
+    match cs with
+    | [] => Ok []
+    | c :: t =>
+        match name_of c with
+        | None => go t (S i) offs cache cx p s
+        | Some n =>
+            let* v := match cache_get i cache with
+                      | Some v => Ok v
+                      | None => match nth_error offs i with
+                                | Some off => let* (v, _) := lazy_force (P c) off cx p s in Ok v
+                                | None => Err EKey None
+                                end
+                      end in
+            let* rest := go t (S i) offs cache cx p s in Ok ((n, v) :: rest)
+        end
+    end.
+
+Fixpoint force_array (Pc : parser) (n : nat) (i : nat) (offs : list Z) (cache : list (nat * val)) (cx : ctx) (p : path) (s : istream)
+  : res (list val) :=
+  match n with
+  | O => Ok []
+  | S n' =>
+      let* v := match cache_get i cache with
+                | Some v => Ok v
+                | None => match nth_error offs i with
+                          | Some off => let* (v, _) := lazy_force Pc off cx p s in Ok v
+                          | None => Err EKey None
+                          end
+                end in
+      let* rest := force_array Pc n' (S i) offs cache cx p s in Ok (v :: rest)
+  end.
+
 (* ---- the interpreter ---- *)
 
 Fixpoint parse (c : con) (cx : ctx) (p : path) (s : istream) {struct c} : res (val * istream) :=
@@ -562,17 +660,32 @@ Fixpoint parse (c : con) (cx : ctx) (p : path) (s : istream) {struct c} : res (v
           if val_eqb h1 (apply_hash h bs) then Ok (h1, s1) else raise EChecksum p
       | _ => unsupported
       end
-  (* lazy constructs: the main interpreter gives the value obtained by forcing every part once, in
-     order, after the parse; access histories are the subject of model/Lazy.v *)
+  (* lazy constructs: the interpreter returns the value obtained by forcing every part once, in order, after
+     the parse; access histories are the subject of model/Lazy.v, which uses the same loops *)
   | CLazy c' =>
-      let* n := sizeof c' cx p in      (* _actualsize; Prefixed's override is outside the model *)
-      match c' with
-      | CPrefixed _ _ _ => unsupported
-      | _ =>
-          let* (_, s1) := iseek s n 1 p in
-          let* (v, _) := parse c' cx p s in Ok (v, s1)
+      match actualsize_with parse c' cx p s with
+      | Ok n =>
+          let* (_, s1) := iseek s (itell s + n) 0 p in
+          let* (v, _) := lazy_force (parse c') (itell s) cx p s1 in Ok (v, s1)
+      | Err ESizeof _ =>
+          let* (_, s0) := iseek s (itell s) 0 p in
+          parse c' cx p s0
+      | Err e q => Err e q
       end
-  | CLazyStruct _ | CLazyArray _ _ => unsupported
+  | CLazyStruct cs =>
+      let cx0 := push_scope cx in
+      let off := itell s in
+      let* (_, _, cx1, s', offs, cache) := lazy_scan_struct parse cs p (O, off, cx0, s, [off], []) in
+      let* kv := force_struct parse cs O offs cache cx1 p s' in
+      Ok (VDict kv, s')
+  | CLazyArray count c' =>
+      let* n := eval_int cx count in
+      if (n <? 0)%Z then raise ERange p else
+      if (alloc_bound <? n)%Z then unsupported else
+      let off := itell s in
+      let* (_, _, cx1, s', offs, cache) := lazy_scan_array (parse c') (actualsize_with parse c') (Z.to_nat n) p (O, off, cx, s, [off], []) in
+      let* vs := force_array (parse c') (Z.to_nat n) O offs cache cx1 p s' in
+      Ok (VList vs, s')
   end.
 
 (* public entry point: d.parse(data, **kw) *)
